@@ -53,6 +53,8 @@ type body struct {
 	// declared length, read boundaries and terminal as a correct HTTP/1.1
 	// client delivers them (registry.Transport)
 	script *registry.Response
+	// status, if not 0, is the response status (with data as the body)
+	status int
 	// reader, if set, is the body itself (read boundaries and terminal error
 	// are the reader's)
 	reader func() io.Reader
@@ -81,6 +83,9 @@ func client(routes ...route) *http.Client {
 	return &http.Client{Transport: rtFunc(func(req *http.Request) (*http.Response, error) {
 		for _, rt := range routes {
 			if st, hdr, b, ok := rt(req); ok {
+				if b.status != 0 {
+					st = b.status
+				}
 				h := http.Header{}
 				for k, v := range hdr {
 					h.Set(k, v)
